@@ -96,7 +96,7 @@ class SrcGen:
             n = 1 + r.below(3)
             args = [r.choice(["TXTPP#run echo", "plain", "", "  lead", "é", "TAG1 T2"]) for _ in range(n)]
         if ty == "":
-            args = [r.choice(["", "*/", "ignored"])] + [r.choice(["x", "", "-*/"]) for _ in range(r.below(3))]
+            args = [r.choice(["", ":/", "ignored"])] + [r.choice(["x", "", "-:/"]) for _ in range(r.below(3))]   # no glob characters: a continuation can end up inside a shell command
         if ty == "tag":
             name = r.choice(TAGNAMES)
             ok = self.listening is None and not any(t.startswith(name) or name.startswith(t) for t in self.live_tags)
